@@ -751,9 +751,11 @@ func init() {
 		quietLogs()
 		r.Rule = "sqlite vault and cosmosdb vault over the repository fake client (hook NewVerifVault): rich fully-defaulted plans (1-3 blocks, 1-3 sequences, 1-3 actions, optional groups; keys, group id, nil/empty/binary meta, delays, concurrency, tolerance, timeouts, retries; value- and pointer-typed requests/responses; created pristine or already executed with zero and nanosecond times and multi-attempt actions with wrapped errors) through Create, 3-14 random Update* calls (incl. attempt resets), Reads after every few updates, unknown and deleted ids, on the real sqlite vault; every field compared with what was last written; non-trivial = >=1 update after create; distinct by final plan image"
 		rng := newRand(13)
+		phase(0.4)
 		for i := 0; i < tierN(200, 8000) && !expired(); i++ {
 			c13Case(r, rng, i, "sqlite")
 		}
+		phase(0.55)
 		for i := 0; i < tierN(60, 2000) && !expired(); i++ {
 			c13Case(r, rng, 100000+i, "cosmos")
 		}
@@ -763,12 +765,14 @@ func init() {
 		quietLogs()
 		r.Rule = "sqlite vault: (a) a request that cannot be serialised (NaN) placed at every value-typed action of rich plans (quick: a random third of the positions) - Create must fail and leave all five tables exactly as they were, then the healthy plan and a second Create of its id; (b) interleaved creates/deletes of several plans with per-table row counts equal to the objects of the live plans and every live plan reading back unchanged; (c) SIGKILL of a child process at a random instant (0-25 ms) while it Submits plans to a file-backed store - afterwards every plan row belongs to a completely readable plan and no orphan rows exist; non-trivial = every case; distinct by case description"
 		rng := newRand(14)
+		phase(0.7)
 		for i := 0; i < tierN(40, 1500) && !expired(); i++ {
 			c14Unencodable(r, rng, i)
 		}
 		for i := 0; i < tierN(40, 1500) && !expired(); i++ {
 			c14Interleave(r, rng, i)
 		}
+		phase(1)
 		for i := 0; i < tierN(30, 1500) && !expired(); i++ {
 			c14Kill(r, rng, i)
 		}
